@@ -10,8 +10,8 @@ import (
 )
 
 // numberLoops assigns ordinals (1-based, source order) to the loops of a function body.
-func numberLoops(body *ast.BlockStmt) map[ast.Stmt]int {
-	m := map[ast.Stmt]int{}
+func numberLoops(body *ast.BlockStmt) map[ast.Node]int {
+	m := map[ast.Node]int{}
 	n := 0
 	ast.Inspect(body, func(nd ast.Node) bool {
 		switch s := nd.(type) {
@@ -21,10 +21,26 @@ func numberLoops(body *ast.BlockStmt) map[ast.Stmt]int {
 		case *ast.RangeStmt:
 			n++
 			m[s] = n
+		case *ast.CallExpr:
+			// x.Loop(func(k, v) {...}): a call of a for-each method with a function literal counts as a loop (the
+			// callee's contract must say `opt foreach=<map field>`; see execForeach)
+			if isForeachCall(s) {
+				n++
+				m[s] = n
+			}
 		}
 		return true
 	})
 	return m
+}
+
+func isForeachCall(c *ast.CallExpr) bool {
+	se, ok := c.Fun.(*ast.SelectorExpr)
+	if !ok || se.Sel.Name != "Loop" || len(c.Args) != 1 {
+		return false
+	}
+	_, ok = c.Args[0].(*ast.FuncLit)
+	return ok
 }
 
 type modSet struct {
@@ -654,4 +670,112 @@ func (vc *VC) addressTaken(body *ast.BlockStmt) map[types.Object]bool {
 		return true
 	})
 	return out
+}
+
+// execForeach: x.Loop(func(k, v) { body }) where the contract of Loop says `opt foreach=<map field>` (and, if the
+// method locks, `opt foreachlock=<mutex field>`): the call is executed as
+//     lock; for k, v := range x.<field> { body }; unlock
+// at the call site, as a loop of the CALLER (ordinal in source order, invariants from the caller's contract). This is
+// how an effectful function literal passed to a for-each method is verified; the callee's own body is verified
+// separately against the same reading (its requires/ensures are checked/assumed here as for any call).
+func (vc *VC) execForeach(st *State, call *ast.CallExpr, spec *FuncSpec, callee *types.Func, recv Term, fld string) {
+	lit := call.Args[0].(*ast.FuncLit)
+	n := vc.loopOrd[call]
+	ls := vc.loopSpec(n)
+	pt, ok := under(recv.T).(*types.Pointer)
+	if !ok {
+		vc.fail(call, "foreach receiver must be a pointer")
+	}
+	et := vc.ts.apply(pt.Elem())
+	stt := under(et).(*types.Struct)
+	names := vc.p.paramNames(spec, callee.Type().(*types.Signature))
+	vars := map[string]Term{}
+	if len(names) > 0 {
+		vars[names[0]] = recv
+	}
+	pre := st.clone()
+	env := &SpecEnv{vc: vc, st: st, old: pre, vars: vars, pkg: callee.Pkg(), allocOld: pre.alloc}
+	for _, r := range spec.Requires {
+		if !vc.wanted(r.Props) {
+			continue
+		}
+		vc.oblige(st, "pre@"+spec.Key, r.Text, vc.pos(call), env.evalBool(r.Expr), r.Props)
+	}
+	vc.oblige(st, "safe-nil", exprString(call.Fun), vc.pos(call), not(eq(recv.S, "0")), nil)
+	lockHeap := ""
+	if mu := spec.Opts["foreachlock"]; mu != "" {
+		lockHeap = vc.lockHeapName(et, mu)
+		h := vc.heapGet(st, lockHeap, "(Array Int Int)", nil)
+		vc.oblige(st, "lock-order", "for-each acquires "+mu+" while not already held by this activation", vc.pos(call), eq(sel(h.S, recv.S), "0"), nil)
+		st.heap[lockHeap] = Term{S: store(h.S, recv.S, "1"), Sort: "(Array Int Int)"}
+	}
+	var mf *types.Var
+	for i := 0; i < stt.NumFields(); i++ {
+		if stt.Field(i).Name() == fld {
+			mf = stt.Field(i)
+		}
+	}
+	if mf == nil {
+		vc.fail(call, "foreach: no field %s", fld)
+	}
+	rng := vc.loadField(st, et, mf, recv.S)
+	mi := vc.mapInfo(rng.T)
+	visName := ls.Visited
+	if visName == "" {
+		visName = fmt.Sprintf("$vis%d", n)
+	}
+	if ls.Over != "" {
+		st.ghost[ls.Over] = rng
+	}
+	vsort := "(Array " + mi.ks + " Bool)"
+	mkVis := func(s string) Term {
+		return Term{S: s, Sort: vsort, KT: mi.K, VT: types.Typ[types.Bool], KS: mi.ks, VS: "Bool"}
+	}
+	guard := func(s *State) string {
+		d := vc.mapDom(s, mi, rng.S)
+		return fmt.Sprintf("(exists ((k!r %s)) (and (select %s k!r) (not (select %s k!r))))", mi.ks, d, s.ghost[visName].S)
+	}
+	iter := func(s *State) []*State {
+		k := vc.fresh("key", mi.K)
+		d := vc.mapDom(s, mi, rng.S)
+		s.assume(fmt.Sprintf("(and (select %s %s) (not (select %s %s)))", d, k.S, s.ghost[visName].S, k.S))
+		s.assume(vc.u.WF(k.S, mi.K, s.alloc))
+		v := vc.mapLookup(s, mi, rng.S, k.S)
+		outs := vc.inlineClosure(s, lit, []Term{k, v})
+		for _, o := range outs {
+			o.ghost[visName] = mkVis(store(o.ghost[visName].S, k.S, "true"))
+		}
+		return outs
+	}
+	st.ghost[visName] = mkVis("((as const " + vsort + ") false)")
+	entry := st.clone()
+	var exit *State
+	if vc.unroll > 0 {
+		outs := vc.unrollLoop(st, "", guard, iter)
+		if len(outs) != 1 {
+			vc.fail(call, "foreach under unrolling: %d exits", len(outs))
+		}
+		exit = outs[0]
+	} else {
+		ms := vc.dryRun(st, "", func(s *State) []*State { s.assume(guard(s)); return iter(s) })
+		vc.checkInvs(st, ls, "inv-entry", entry, n, vc.pos(call))
+		head := vc.havocFor(st, ms, ls, entry)
+		v := vc.freshSort("vis", vsort)
+		head.ghost[visName] = mkVis(v.S)
+		vc.assumeInvs(head, ls, entry)
+		exit = head.clone()
+		exit.assume(not(guard(exit)))
+		bodySt := head.clone()
+		bodySt.assume(guard(bodySt))
+		for _, o := range iter(bodySt) {
+			vc.checkInvs(o, ls, "inv-preserve", entry, n, vc.pos(call))
+		}
+		vc.anchors([]*State{exit}, fmt.Sprintf("afterloop%d", n), entry)
+	}
+	if lockHeap != "" {
+		h := vc.heapGet(exit, lockHeap, "(Array Int Int)", nil)
+		exit.heap[lockHeap] = Term{S: store(h.S, recv.S, "0"), Sort: "(Array Int Int)"}
+	}
+	*st = *exit
+	vc.note("for-each call " + exprString(call.Fun) + " executed as a loop over " + fld + " at the call site (contract option foreach)")
 }
